@@ -1,6 +1,7 @@
 package NoKV
 
 import (
+	"bytes"
 	"fmt"
 	"maps"
 	"path/filepath"
@@ -22,10 +23,14 @@ const (
 	valueLogSmallCopyThreshold        = 4 << 10         // copy small values to reduce read lock hold.
 )
 
-// internalKeyPrefix marks keys the engine itself stores in the default column family.
-var internalKeyPrefix = []byte("!NoKV!")
-
 var lfDiscardStatsKey = []byte("!NoKV!discard") // For storing lfDiscardStats
+
+// isBookkeepingKey reports whether userKey is a record the engine itself keeps in the default
+// column family. Only those records are hidden from iterators: the "!NoKV!" prefix is not
+// reserved, clients can write and read keys under it like any other.
+func isBookkeepingKey(userKey []byte) bool {
+	return bytes.Equal(userKey, lfDiscardStatsKey)
+}
 
 type valueLog struct {
 	dirPath            string
